@@ -104,6 +104,35 @@ def shadow_array_fn(name, cached, uncached):
     return wrapper
 
 
+# ----------------------------------------------------------------------------- memoisation the property does not name
+_KNOWN = {"_convolve_two_children", "compute_log_S", "_get_cached_semi_proposal_dist", "_get_cached_full_proposal_dist",
+          "get_cached_new_tree"}
+
+
+def clear_other_caches():
+    """The unmemoised reference must owe nothing to *any* memoisation in the package: every other cached callable found
+    in the package's modules (anything with cache_clear / cache_info that is not one of the five shadowed entry points -
+    on the pinned code these are pure integer helpers) is cleared before the reference is computed."""
+    import sys
+
+    n = 0
+    for mname, mod in list(sys.modules.items()):
+        if not mname.startswith("phyclone") or mod is None:
+            continue
+        for name, obj in list(vars(mod).items()):
+            if name in _KNOWN or not callable(obj):
+                continue
+            if hasattr(obj, "cache_clear") and hasattr(obj, "cache_info"):
+                try:
+                    if obj.cache_info().currsize:
+                        n += 1
+                    obj.cache_clear()
+                except Exception:
+                    pass
+    if n:
+        _count("other_caches_cleared_before_a_reference", n)
+
+
 # ----------------------------------------------------------------------------- proposal caches
 def _holder_key(h):
     return gen.key_str(gen.tree_key(h.tree))
@@ -169,6 +198,7 @@ def shadow_proposal_fn(name, cached):
             # re-arm what the unmemoised call would find at this moment
             parent_particle._built_tree.clear()
             parent_particle._built_tree.extend(bt_state if bt_state else [None])
+        clear_other_caches()
         try:
             ref = uncached(data_point, kernel, parent_particle, outlier_proposal_prob, alpha)
         finally:
@@ -203,6 +233,7 @@ def shadow_new_tree_fn(name, cached):
         _count(name + "_calls")
         if hit:
             _count(name + "_hits")
+        clear_other_caches()
         ref = uncached(parent_particle, data_point, children, tree_dist, perm_dist)
         kr, kf = _holder_key(res), _holder_key(ref)
         if kr != kf:
